@@ -24,8 +24,8 @@ precision against the code (DESIGN §8).
 **Limits** (external audit): the `*_rejects_iff` theorems restate the comparison the model makes (their content is that the
 model makes the code's comparison, which the correspondence checks on boundary atoms ±1 ulp); "never fail" is `.ok` over ℝ,
 where `log 0` / `x/0` are totalised — the whole-program theorems that exclude them (`…_in_domain_total`: all gathers in range,
-logarithm arguments positive, discriminant ≥ 0) are the ones that carry the claim; statements are per element — the code rejects a
-whole batch when one element is outside, which no theorem here expresses.
+logarithm arguments positive, discriminant ≥ 0) are the ones that carry the claim; statements here are per element; `Properties/C17E.lean` has the exact domains of the executed elements and the
+layer-level statement (a whole element-wise layer reports an error iff some element does), `Properties/C12E.lean` the batch-level one.
 -/
 open NF
 
